@@ -84,7 +84,7 @@ func containsSym(v value, depth int) bool {
 		return false
 	}
 	switch x := v.(type) {
-	case symBool, symInt, symF64, symStr, rope, optPtr, *jsonTok, opaqueBytesV, timeTok:
+	case symBool, symInt, symF64, symStr, rope, optPtr, *jsonTok, opaqueBytesV, timeTok, periodTok:
 		return true
 	case iface:
 		return containsSym(x.v, depth+1)
